@@ -321,7 +321,25 @@ func C19(c Ctx) *report.Report {
 			fee = big.NewInt(1)
 		}
 		tot := total()
-		res := e.Deliver(sdk.NewCoins(sdk.NewCoin("rowan", sdk.NewIntFromBigInt(fee))), 5_000_000, []chain.Account{signer}, msgs...)
+		// the floors are about the rowan in the fee: other coins beside it (or instead of it) buy nothing
+		feeCoins := sdk.NewCoins(sdk.NewCoin("rowan", sdk.NewIntFromBigInt(fee)))
+		feeShape := "rowan-only"
+		if signer.Addr.Equals(user.Addr) {
+			switch rng.Intn(8) {
+			case 0:
+				feeCoins = feeCoins.Add(sdk.NewCoin("ceth", sdk.NewInt(int64(1+rng.Intn(1000)))))
+				feeShape = "rowan+ceth"
+			case 1:
+				feeCoins = feeCoins.Add(sdk.NewCoin("ceth", sdk.NewInt(1)), sdk.NewCoin("cusdc", sdk.NewIntFromBigInt(chain.E(18))))
+				feeShape = "rowan+ceth+cusdc"
+			case 2:
+				feeCoins = sdk.NewCoins(sdk.NewCoin("ceth", sdk.NewIntFromBigInt(chain.E(18))))
+				fee = new(big.Int) // no rowan in the fee
+				feeShape = "ceth-only"
+			}
+		}
+		rep.Count("fee-shape." + feeShape)
+		res := e.Deliver(feeCoins, 5_000_000, []chain.Account{signer}, msgs...)
 		executed := res.Code == 0
 		rejectedByRules := res.Code != 0 && !strings.Contains(res.Log, "failed to execute message") && (strings.Contains(res.Log, "tx fee is too low") || strings.Contains(res.Log, "unsupported fee asset") ||
 			strings.Contains(res.Log, "cannot be lower than minimum") || strings.Contains(res.Log, "voting power") || strings.Contains(res.Log, "validator does not exist"))
